@@ -41,7 +41,7 @@ pub struct VecApi<S: HasR, const N: usize> {
 
 macro_rules! vec_api {
     ($T:ident, $S:ty, $N:expr, ab: $ab:tt, at: $at:tt, cross: $cr:tt, pd: $pd:tt) => {{
-        let v = |a: [$S; $N]| <$T>::from_array(a);
+        let v = |a: [$S; $N]| <$T as crate::gen::FromLanes<$S, $N>>::mk(a);
         VecApi::<$S, $N> {
             name: stringify!($T),
             dot: Box::new(move |a, b| v(a).dot(v(b))),
